@@ -1,4 +1,5 @@
 import JSL.Inv.AgvSteps
+import JSL.Inv.Tables
 
 /-!
 # Structural invariants along `applyTransition`, `processTransitions`, `timedLoop`, `smStep`
@@ -68,13 +69,11 @@ theorem applyTransition_struct (w : WF inst) {s s' : State} {r r' : Rng} {tr : T
         have hnd := hI.shape.jobsNodup w
         cases hd' with
         | idleToSetup =>
-          have hst : m0.st = .idle ∧ ns = .setup := by
-            cases h0 : m0.st <;> cases ns <;> simp_all [machineHandler]
+          have hst := machineHandler_idleToSetup hmh
           exact idleToSetup_struct w hI hmem
             (valid_machine_job hnd hv (by simp [hst.1]) (by simp [hst.1])) h
         | setupToWorking =>
-          have hst : m0.st = .setup ∧ ns = .working := by
-            cases h0 : m0.st <;> cases ns <;> simp_all [machineHandler]
+          have hst := machineHandler_setupToWorking hmh
           exact setupToWorking_struct w hI hmem
             (valid_machine_job hnd hv (by simp [hst.1]) (by simp [hst.1])) h
         | workingToOutage => exact workingToOutage_struct w hI hmem h
